@@ -12,6 +12,7 @@
       -> [SendKind::send] ([apply_to_response]).  Every stage is the model another property
       already ties to the code; the composition only threads their outcomes.
     Definitions only; proofs live in Proofs/PanicsProofs.v. *)
+From Coq Require Import ZArith.
 From KV Require Import Bytes RustInt RustStd.
 From KV Require PathSan Range RangeConn Http1Read Hosts Negotiate Cors CacheControl Limiter.
 Open Scope N_scope.
@@ -550,6 +551,75 @@ Definition run_c02_path (x : xval) : xval :=
   | _ => bad_input
   end.
 
+(** ** Numbers a client controls, and how the request path compares them
+
+    - weights of list members ([accept-encoding]; [accept-language] only in callbacks of the operator): [f32::from_str]
+      ([Negotiate.parse_q_dec]); the core tests them with [== 0.0], [!= 0.0] and [== 1.0] only, which are total on every binary32
+      value ([Negotiate.qclass]: NaN, the infinities and negative numbers are "other").  Nothing orders or sorts them: [f32] is only
+      [PartialOrd], and [a.partial_cmp(&b)] is [None] as soon as one side is NaN.  What a rewrite that ORDERS the client's weights
+      with [sort_by(|a, b| b.quality.partial_cmp(&a.quality).unwrap())] would do is [sort_weights] below: a panic for every list of
+      two or more members one of whose weights is "nan" ([weight_order_variant_refuted]) — the reason why the live exploration
+      sends such lists to every kind of page.
+    - [range]: [u64::from_str] twice ([Range.sanitize_range]); [as usize] only after the clamp to the body length ([Range.apply_range]).
+    - [content-length]: [usize::from_str] ([Http1Read.body_length]); the body reader's [(len - buffer.len()) as u64] widens.
+    - [if-modified-since]: the time crate's parser, integer fields with fixed widths ([Ims.parse_http_date]); the comparison is
+      on [OffsetDateTime] (total).
+    - [stream_body]: [pos += read as u64] (widens), [read - (pos - end) as usize] (below the 64 KiB buffer; [stream_chunk]).
+    - no [from_str_radix] on the request path (percent-decoding is the percent-encoding crate's; kvarn parses no hex or chunk sizes). *)
+Inductive fweight := FNan | FVal (v : Z).     (* a binary32 value as [partial_cmp] sees it: NaN, or a point of the total order -inf .. +inf *)
+Definition partial_cmp (a b : fweight) : option comparison :=
+  match a, b with FVal x, FVal y => Some (x ?= y)%Z | _, _ => None end.
+(** [slice::sort_by] on up to 20 elements is an insertion sort; the comparator is [|a, b| b.partial_cmp(a).unwrap()] (descending,
+    stable); the members are inserted from the last to the first *)
+Fixpoint insert_weight {A} (x : A * fweight) (l : list (A * fweight)) : outcome (list (A * fweight)) :=
+  match l with
+  | [] => Ok [x]
+  | y :: r =>
+      match partial_cmp (snd y) (snd x) with
+      | None => Panic                                          (* unwrap on None *)
+      | Some Gt => obind (insert_weight x r) (fun r' => Ok (y :: r'))
+      | Some _ => Ok (x :: y :: r)                             (* x came before y: it stays before a member of equal weight *)
+      end
+  end.
+Fixpoint sort_weights {A} (l : list (A * fweight)) : outcome (list (A * fweight)) :=
+  match l with
+  | [] => Ok []
+  | x :: r => obind (sort_weights r) (insert_weight x)
+  end.
+
+(** component c02.ae: (L (B accept-encoding value) (N target)) -> Ok (L answer answer), answer = (L (N status) (L [content-encoding])).
+    The harness sends the same well-formed GET with this [accept-encoding] value twice on one connection (the second meets what the
+    first left in the response cache and in the memo cells) to a page of its fixture; the model gives what [clone_preferred]
+    ([Negotiate.clone_preferred], the model C06 ties to the code) settles on: the 406 page (which [error::default] labels "identity", as every error page) when
+    identity is refused and nothing else applies, else the page's status with the name of the chosen coding.  The weight of a member goes
+    through [f32::from_str] ([Negotiate.parse_q_dec]: also "nan", "inf", "1e400", "-0", ".5", "1.", "+1") and is consulted ONLY by
+    the three tests [== 0.0], [!= 0.0] and [== 1.0] — total on every binary32 value, NaN included ([Negotiate.qclass]); nothing on
+    the request path orders or sorts client-controlled floats.
+    targets: 0 [/h] (handler, cached), 1 [/nc] (handler, never cached), 2 [/index.html] (file), 3 the built-in 404 page of a host
+    without an errors directory, 4 [/sub/] (a 12-byte file: under the 50-byte floor the response is never compressed). *)
+Definition ae_targets : list (N * bool) := [(200, true); (200, true); (200, true); (404, true); (200, false)].
+Definition ae_page (big : bool) : Negotiate.cresp :=
+  Negotiate.cresp_new (repeat 97 (if big then 60 else 12)) (Some (B "text/html")) None true.
+Definition ae_options : Negotiate.options := Negotiate.mkOptions Negotiate.PZstd 0 0 0.
+Definition ae_answer (parse_q : bytes -> option Negotiate.qclass) (status : N) (big : bool) (ae : option bytes)
+  : N * option bytes :=
+  match fst (Negotiate.clone_preferred parse_q Negotiate.parse_mime_std Negotiate.enc_tag (ae_page big) ae ae_options) with
+  | Negotiate.NotAcceptable => (406, Some Negotiate.s_identity)   (* [error::default] labels every error page "identity" *)
+  | Negotiate.Sent label _ _ => (status, label)
+  end.
+Definition run_c02_ae (x : xval) : xval :=
+  match x with
+  | XL [XB ae; XN target] =>
+      match nth_error ae_targets (N.to_nat target) with
+      | Some (status, big) =>
+          let a := ae_answer Negotiate.parse_q_dec status big (Some ae) in
+          let xa := XL [XN (fst a); x_option XB (snd a)] in
+          XL [XN 0; XL [xa; xa]]
+      | None => bad_input
+      end
+  | _ => bad_input
+  end.
+
 (** components explore.*: exploration runs (a live connection, crates that are not modelled).
     The "model" is the claim under test — the run ends cleanly — so that a panic shows up as
     a difference as well as in the model-independent oracle. *)
@@ -564,6 +634,7 @@ Definition panics_table : list (bytes * (xval -> xval)) :=
     (B "stream.window", run_stream_window);
     (B "cc.kvarn", run_cc_kvarn);
     (B "c02.path", run_c02_path);
+    (B "c02.ae", run_c02_ae);
     (B "explore.conn", run_explore);
     (B "explore.server", run_explore);
     (B "explore.file", run_explore);
